@@ -24,7 +24,7 @@ pub fn check() -> Check {
         rule: "G1: every line of length <= 10 (quick) / 11 (thorough) over {a, space, quote, backslash, dash, e-acute} tokenised by Tokens::new and compared with a reference grammar written from the property; \
                G2: random lines up to 200 chars over 1-4-byte characters; G3: round trip - random lists of 0-6 arbitrary NUL-free strings rendered fully or minimally quoted, with or without blanks after closing quotes, must tokenise back to exactly the list; \
                G4: the same lists typed through a whole Cli and read back by the handler (after `x --`, or as the whole line: name + classified arguments); renderings may leave the last quote open; \
-               G1b: every line of <= 8/9 symbols over {a, space, quote, U+00A0, U+3000} (Unicode blanks are ordinary characters); G5: every line of <= 7/8 symbols over the first alphabet typed through the Cli and compared with the reference dispatch. \
+               G1b: every line of <= 8/9 symbols over {a, space, quote, U+00A0, U+3000} and over {a, space, quote, TAB, U+001F} (Unicode blanks and control characters are ordinary characters); G5: every line of <= 7/8 symbols over the first alphabet typed through the Cli and compared with the reference dispatch. \
                Non-trivial = the line contains an empty quoted token, an escape, or a quote adjacent to another token; distinct by line content.",
         assumptions: &[
             "inside quotes a backslash followed by anything but quote or backslash, and a dangling final backslash, are left open by the property: on such lines (skipped_unspecified) the token boundaries and all other characters are still compared, the open escape may yield c or backslash-c (nothing or a backslash at the end of the line)",
@@ -138,9 +138,11 @@ impl Rendering {
 fn token_strategy(typeable: bool) -> impl Strategy<Value = String> {
     // U+0085, U+00A0, U+2003, U+3000 are blanks to Unicode but ordinary characters to the tokeniser ("split at runs of spaces")
     let table: Vec<char> = vec!['a', 'b', ' ', '"', '\\', '-', 'é', 'Ж', '₿', '𝄞', 'x', '\'', '\u{a0}', '\u{3000}', '\u{85}', '\u{2003}', 'à', 'ก'];
+    let ctl: Vec<char> = if typeable { vec!['a'] } else { vec!['\t', '\u{1}', '\u{1f}', '\u{7f}'] };
     let ch = prop_oneof![
-        8 => any::<u16>().prop_map(move |s| pick(&table, s)),
-        1 => any::<char>().prop_map(move |c| if c == '\0' || (typeable && (c < ' ' || c == '\x7f')) { 'Ω' } else { c }),
+        16 => any::<u16>().prop_map(move |s| pick(&table, s)),
+        1 => any::<u16>().prop_map(move |s| pick(&ctl, s)),
+        2 => any::<char>().prop_map(move |c| if c == '\0' || (typeable && (c < ' ' || c == '\x7f')) { 'Ω' } else { c }),
     ];
     proptest::collection::vec(ch, 0..8).prop_map(|v| v.into_iter().collect())
 }
@@ -271,35 +273,37 @@ fn run_shard(ctx: &ShardCtx) {
     ctx.class_n("enumerated", enumerated);
 
     // G1b: a second alphabet - characters Unicode calls blanks (U+00A0, U+3000) are ordinary token characters
-    let syms2: [&str; 5] = ["a", " ", "\"", "\u{a0}", "\u{3000}"];
+    // and C0 control characters (TAB, U+0001, U+001F) are ordinary token characters as well: only the space separates
     let depth2 = ctx.tier.pick(8u32, 9u32);
-    'outer2: for len in 1..=depth2 {
-        let total = 5u64.pow(len);
-        for code in 0..total {
-            idx += 1;
-            if !ctx.mine(idx) || ctx.failed() {
-                continue;
-            }
-            let mut line = String::with_capacity(24);
-            let mut c = code;
-            for _ in 0..len {
-                line.push_str(syms2[(c % 5) as usize]);
-                c /= 5;
-            }
-            if !line.contains('\u{a0}') && !line.contains('\u{3000}') {
-                continue;
-            }
-            ctx.count_eval();
-            match compare_line(&line) {
-                Ok(_) => ctx.nontrivial_enum(|| json!({"line": line})),
-                Err((e, o)) => {
-                    ctx.fail(Failure::new("tokens-enum", json!({"line": line}), format!("tokens of {:?}: {}", line, e), o));
-                    break 'outer2;
+    for syms2 in [["a", " ", "\"", "\u{a0}", "\u{3000}"], ["a", " ", "\"", "\t", "\u{1f}"]] {
+        'outer2: for len in 1..=depth2 {
+            let total = 5u64.pow(len);
+            for code in 0..total {
+                idx += 1;
+                if !ctx.mine(idx) || ctx.failed() {
+                    continue;
+                }
+                let mut line = String::with_capacity(24);
+                let mut c = code;
+                for _ in 0..len {
+                    line.push_str(syms2[(c % 5) as usize]);
+                    c /= 5;
+                }
+                if !line.contains(syms2[3]) && !line.contains(syms2[4]) {
+                    continue;
+                }
+                ctx.count_eval();
+                match compare_line(&line) {
+                    Ok(_) => ctx.nontrivial_enum(|| json!({"line": line})),
+                    Err((e, o)) => {
+                        ctx.fail(Failure::new("tokens-enum", json!({"line": line}), format!("tokens of {:?}: {}", line, e), o));
+                        break 'outer2;
+                    }
                 }
             }
         }
     }
-    ctx.exhaustive(&format!("lines of <= {} symbols over {{a, space, quote, U+00A0, U+3000}}", depth2), !ctx.failed());
+    ctx.exhaustive(&format!("lines of <= {} symbols over {{a, space, quote, U+00A0, U+3000}} and over {{a, space, quote, TAB, U+001F}}", depth2), !ctx.failed());
 
     // G5: every short line typed through a whole Cli (Enter acts on the line as typed: nothing is trimmed, no token is
     // lost between the tokeniser and the handler)
@@ -344,7 +348,7 @@ fn run_shard(ctx: &ShardCtx) {
     ctx.class_n("enumerated through the Cli", g5);
 
     // G2
-    let table: Vec<char> = vec!['a', 'b', ' ', ' ', '"', '"', '\\', '-', 'é', 'Ж', '₿', '𝄞'];
+    let table: Vec<char> = vec!['a', 'b', ' ', ' ', '"', '"', '\\', '-', 'é', 'Ж', '₿', '𝄞', '\t', '\u{1}', '\u{1f}', '\u{a0}', '\u{85}'];
     let ch = prop_oneof![
         12 => any::<u16>().prop_map(move |s| pick(&table, s)),
         1 => any::<char>().prop_map(|c| if c == '\0' { 'Ω' } else { c }),
